@@ -112,6 +112,17 @@ def body_ph_hist(ctx, direction, burn, N):
 # CUSUM
 
 
+def _exact_zero(v):
+    import z3
+
+    if v is None:
+        return False
+    if isinstance(v, Sym):
+        z = z3.simplify(v.z)
+        return (z3.is_rational_value(z) or z3.is_int_value(z)) and z.as_fraction() == 0
+    return bool(v == 0)
+
+
 def _cusum_run(ctx, d, spec, x):
     """run one update of implementation and specification and compare"""
     from menelaus.change_detection import cusum as M
@@ -131,7 +142,8 @@ def _cusum_run(ctx, d, spec, x):
     post = d.drift_state
     ctx.prove(iff(state_is(post, "drift"), alarm), "cusum-drift-iff-spec")
     ctx.prove(lnot(state_is(post, "warning")), "cusum-never-warns")
-    if spec.active:
+    zero_sd = _exact_zero(spec.sd)  # the sums are inf / nan there: not compared
+    if spec.active and not zero_sd:
         ctx.prove(land(ctx.eq(scalar(d._upper_bound[-1]), spec.s_h), ctx.eq(scalar(d._lower_bound[-1]), spec.s_l)),
                   "cusum-sums-equal-spec")
         ctx.prove(land(ctx.eq(scalar(d.target), spec.target), ctx.eq(scalar(d.sd_hat), spec.sd)), "cusum-target-sd")
@@ -211,6 +223,21 @@ def body_cusum_hist(ctx, burn, direction, N, target_given):
             return
 
 
+def body_cusum_zero_deviation(ctx, burn):
+    """a constant burn-in window: the estimated deviation is exactly 0 and the documented ValueError must follow on the
+    first tested observation (the division by the zero deviation in between is havoc'd, as numpy's inf / nan would be)"""
+    from menelaus.change_detection import CUSUM
+
+    delta, thr = ctx.real("delta"), ctx.real("threshold")
+    d = CUSUM(target=None, sd_hat=None, burn_in=burn, delta=delta, threshold=thr)
+    spec = CusumSpec(None, None, burn, delta, thr, None)
+    level = ctx.real("plateau")
+    for i in range(burn + 1):
+        if not _cusum_run(ctx, d, spec, level if i < burn else ctx.real("x")):
+            return
+    ctx.prove(False, "cusum-zero-sd-must-raise")
+
+
 def jobs(tier):
     q = tier == "quick"
     out = []
@@ -247,4 +274,7 @@ def jobs(tier):
             out.append(Job(f"cusum-hist-b{burn}-tg{int(tg)}", "checks.c04:body_cusum_hist",
                            {"burn": burn, "direction": None, "N": burn + (2 if q else 3), "target_given": tg},
                            expect=("state-drift",)))
+    for burn in (2, 3):
+        out.append(Job(f"cusum-zero-deviation-b{burn}", "checks.c04:body_cusum_zero_deviation", {"burn": burn},
+                       expect=("zero-sd",), opts={"div_policy": "havoc_zero", "validate": 1}))
     return out
